@@ -5,6 +5,7 @@ CONSTANTS
   Emit = FALSE
   DimCheck = TRUE
   Rich = FALSE
+  UnitGrid = FALSE
 INVARIANTS AllLaws EmitInv
 CONSTRAINT Bound
 CHECK_DEADLOCK FALSE
